@@ -7,7 +7,9 @@
      "fix: md-grid remove/replace of 0-d subdomains no longer looks up a boundary grid"
      "fix: md-grid add_interface registers the interface only after validating the pair"
      "fix: md-grid remove/replace handle a subdomain that is coupled to itself"
-     "fix: md-grid add_subdomains rejects a grid that is listed twice in one call".
+     "fix: md-grid add_subdomains rejects a grid that is listed twice in one call"
+     "fix: md-grid argsort_grids accepts iterables that can be consumed only once"
+   (iterable arguments - lists, tuples, generators, iterators, views - are lists here).
    Executable definitions only.
 
    Grids (subdomain grids, mortar grids, boundary grids) are identified by
@@ -409,7 +411,8 @@ Record obs := mkobs {
   o_bounds : res (list gid);                         (* boundaries() *)
   o_bounds_dim : list (nat * res (list gid));        (* boundaries(dim=d) *)
   o_int_cd : list (option nat * nat * res (list gid));  (* interfaces(dim=d, codim=c) *)
-  o_neigh : list (gid * (bool * bool) * res (list gid)) (* neighboring_subdomains *)
+  o_neigh : list (gid * (bool * bool) * res (list gid)); (* neighboring_subdomains *)
+  o_argsort : list (list gid * res (list gid))       (* [l[i] for i in argsort_grids(l)] *)
 }.
 
 Definition obs_ok (cm : list (gid * nat)) (g : st) (x : outcome) (o : obs) : bool :=
@@ -434,7 +437,8 @@ Definition obs_ok (cm : list (gid * nat)) (g : st) (x : outcome) (o : obs) : boo
   && forallb (fun p => res_eqb glist_eqb
                          (neighbours g (fst (fst p)) (fst (snd (fst p))) (snd (snd (fst p))))
                          (snd p))
-             (o_neigh o).
+             (o_neigh o)
+  && forallb (fun p => res_eqb glist_eqb (argsort (sds g) (fst p)) (snd p)) (o_argsort o).
 
 (* monomorphic constructors for the literals of generated case files (cheap to elaborate) *)
 Definition G (d n : nat) : gid := (d, n).
@@ -459,6 +463,7 @@ Definition CD (d : option nat) (c : nat) (r : res (list gid)) : option nat * nat
   (d, c, r).
 Definition NB (s : gid) (hi lo : bool) (r : res (list gid)) : gid * (bool * bool) * res (list gid) :=
   (s, (hi, lo), r).
+Definition AS (l : list gid) (r : res (list gid)) : list gid * res (list gid) := (l, r).
 Definition gnil : list gid := nil.
 Definition gcons (g : gid) (l : list gid) : list gid := g :: l.
 
